@@ -8,7 +8,9 @@ package main
 //     can be reached in the static call graph of the package;
 //   - helperCalls: some shapes are order-insensitive only if the data they are run on has a
 //     uniqueness property (a search with early exit, or last-match-wins, whose test is not
-//     `key == x`: a search by a field of the key, such as the name of an identifier). A function
+//     `key == x`: a search by a field of the key, such as the name of an identifier; or a
+//     selection by an order among the entries a filter lets through, deterministic only if the
+//     measure is injective on those). A function
 //     containing such a loop and testing something it receives as a parameter is a *helper*: the
 //     obligation is its callers'. Every call of a helper in the package is listed (caller,
 //     arguments as written); a function that passes its own parameters on to a helper is a helper
@@ -317,7 +319,47 @@ func mrcShapeOf(info *types.Info, fset *token.FileSet, rs *ast.RangeStmt, next a
 		order = order || mrcHasOrder(c)
 	}
 	if order {
-		return mrcShape{shape: "minMax"}
+		// a selection by an order (arg-min / arg-max / maximum). The conjuncts of its conditions
+		// that are not part of the comparison and look at the entry are the *filter* of the
+		// selection (`g.Name == name && (first == nil || g.Pos().Start < first.Pos().Start)`:
+		// the filter is `g.Name == name`): the result is independent of the order only if the
+		// measure is injective on the entries the filter lets through — when the filter tests a
+		// parameter that is the callers' obligation, as for a search by a field.
+		sh := mrcShape{shape: "minMax"}
+		var filter []string
+		seen := map[string]bool{}
+		var conj func(e ast.Expr)
+		conj = func(e ast.Expr) {
+			switch x := e.(type) {
+			case *ast.ParenExpr:
+				conj(x.X)
+				return
+			case *ast.BinaryExpr:
+				if x.Op == token.LAND {
+					conj(x.X)
+					conj(x.Y)
+					return
+				}
+			}
+			if mrcHasOrder(e) || !b.usesInside(e) {
+				return
+			}
+			filter = append(filter, exprString(fset, e))
+			ast.Inspect(e, func(n ast.Node) bool {
+				if id, ok := n.(*ast.Ident); ok {
+					if name, ok := params[info.ObjectOf(id)]; ok && !seen[name] {
+						seen[name] = true
+						sh.testParams = append(sh.testParams, name)
+					}
+				}
+				return true
+			})
+		}
+		for _, c := range b.conds {
+			conj(c)
+		}
+		sh.test = strings.Join(filter, " && ")
+		return sh
 	}
 	if b.outerAssigns == 0 && b.exits > 0 && !b.exitUsesEntry {
 		return mrcShape{shape: "exists"}
@@ -545,11 +587,11 @@ func genMapRangeCalls(repo string) (string, error) {
 		return a.ord < b.ord
 	})
 
-	// helpers: functions with a selectByField loop whose test mentions a parameter, and functions
-	// that pass a parameter of theirs on to a helper
+	// helpers: functions with a selectByField loop whose test — or a minMax loop whose filter —
+	// mentions a parameter, and functions that pass a parameter of theirs on to a helper
 	helper := map[*types.Func]bool{}
 	for _, s := range sites {
-		if s.sh.shape == "selectByField" && len(s.sh.testParams) > 0 {
+		if (s.sh.shape == "selectByField" || s.sh.shape == "minMax") && len(s.sh.testParams) > 0 {
 			helper[s.mf.obj] = true
 		}
 	}
@@ -662,7 +704,7 @@ func genMapRangeCalls(repo string) (string, error) {
 	var b strings.Builder
 	b.WriteString("/-! Map iteration on the build path of /repo/internal/compiler (go/types): the shape of every map\nrange (same sites, same order as `Gen/MapRanges.lean`), from where it can be reached, every call of a\nhelper whose loop searches by something other than the key, and how `sortDeclarations` looks up the\ndependencies of a declaration. See go/cmd/extract/gen_maprangecalls.go. -/\n")
 	b.WriteString("namespace ScriggoV.Gen.MapRangeCalls\n\n")
-	b.WriteString("structure Shape where\n  file : String\n  fn : String\n  ord : Nat\n  /-- collectThenSort | collectUnsorted | indexedStore | exists | selectByKey | selectByField | minMax | unrecognised (statements that are calls, nested loops, a mixture: to be read by hand) -/\n  shape : String\n  /-- select shapes: the test as written -/\n  test : String\n  /-- the parameters of the enclosing function the test mentions -/\n  testParams : List String\n  /-- build (reachable from BuildProgram / BuildTemplate) | disassemble | other -/\n  reach : String\n  deriving DecidableEq, Repr\n\n")
+	b.WriteString("structure Shape where\n  file : String\n  fn : String\n  ord : Nat\n  /-- collectThenSort | collectUnsorted | indexedStore | exists | selectByKey | selectByField | minMax | unrecognised (statements that are calls, nested loops, a mixture: to be read by hand) -/\n  shape : String\n  /-- select shapes: the test as written; minMax: the filter (the conjuncts of its conditions that look at the entry and are not the comparison), as written -/\n  test : String\n  /-- the parameters of the enclosing function the test mentions -/\n  testParams : List String\n  /-- build (reachable from BuildProgram / BuildTemplate) | disassemble | other -/\n  reach : String\n  deriving DecidableEq, Repr\n\n")
 	b.WriteString("def shapes : List Shape := [\n")
 	for i, s := range sites {
 		sep := ","
